@@ -1,8 +1,8 @@
 #!/bin/sh
 # tools/confirm_seed2.sh <prop> <src letter A/B> <stored letter C/D> (round 2): confirm a sub-agent's seeded change in a fresh scratch worktree of /repo HEAD,
 # then store it under /verif/seeded/<prop>-<letter>/ (patch.diff, demo.py, NOTES.md, confirm.log). Removes the worktree.
-prop=$1; l=$2; ol=$3; src=/tmp/mut/$prop.out
-wt=/tmp/mut/confirm_${prop}_$ol
+prop=$1; l=$2; ol=$3; mutdir=${MUTDIR:-/tmp/mut}; src=$mutdir/$prop.out
+wt=$mutdir/confirm_${prop}_$ol
 git -C /repo worktree add --detach $wt HEAD >/dev/null 2>&1 || exit 9
 out=/verif/seeded/$prop-$ol; mkdir -p $out
 log=$out/confirm.log; : > $log
